@@ -129,3 +129,12 @@ ACC_J = lambda S: f"forall(p, 0, P, implies(not {NEs}[{TOP}, p] and in_box({S}, 
 ACC_A = lambda S: f"forall(p, 0, P, implies({NEs}[{TOP}, p] and onpoint({S}, {TOP}, p), rel_holds(p)))"
 ACC_REQ = [ALLFULL, ("C01.K0", ACC_K(SS, "triggered_propagators", "-1")), ("C01.J0", ACC_J(SS))]
 ACC_ENS = [("C01.accept", f"implies(result != PROBLEM_INCONSISTENT, {ACC_A(SS)})"), ("C01.J", f"implies(result != PROBLEM_INCONSISTENT, {ACC_J(SS)})")]
+
+# ------------------------------------------------------------------ fixpoint layer (C08)
+NOALIAS = ("C08.noalias", "forall(p, 0, P, noalias(p))")  # no constraint has one shared domain at two of its positions
+AFFEQ_FULL = ("C08.affine_eq_full", "forall(p, 0, P, implies(algorithms[p] == ALG_AFFINE_EQ, fullmask(p)))")  # get_triggers_affine_eq: MIN|MAX everywhere
+# KF: an enabled constraint is at a fixpoint on the current row unless it is queued (or is the one that just ran, saw its own output, and is idempotent)
+FIX_K = lambda S, T, last: f"forall(p, 0, P, implies({NEs}[{TOP}, p] and (not {T}[p] or p == {last}), fixp({S}, {TOP}, p)))"
+FIX_A = lambda S: f"forall(p, 0, P, implies({NEs}[{TOP}, p], fixp({S}, {TOP}, p)))"
+FIX_REQ = [NOALIAS, AFFEQ_FULL, ("C08.K0", FIX_K(SS, "triggered_propagators", "-1"))]
+FIX_ENS = [("C08.fixpoint", f"implies(result != PROBLEM_INCONSISTENT, {FIX_A(SS)})")]
